@@ -13,7 +13,7 @@ print(re.search(r'C[0-9][0-9]',src).group(0))")
   R=$(mktemp -d /var/tmp/seedrepo.XXXXXX)
   cp -a /repo/. $R/
   if ! git -C $R apply /verif/seeded/$s/patch.diff 2>$OUT/$s.err; then echo "NOAPPLY $s" > $OUT/$s.txt; rm -rf $R; return; fi
-  VERIF_REPO=$R ./check $P $TIER > $OUT/$s.log 2>&1; rc=$?
+  VERIF_REPO=$R VERIF_EVIDENCE_DIR=$R/.verif-evidence ./check $P $TIER > $OUT/$s.log 2>&1; rc=$?
   case $rc in 0) echo "MISSED $s";; 1) echo "DETECTED $s $(grep -m1 VIOLATION $OUT/$s.log | sed 's/.*# //' | cut -c1-100)";; *) echo "BROKEN($rc) $s";; esac > $OUT/$s.txt
   rm -rf $R
 }
